@@ -389,6 +389,12 @@ class Phase(Angle):
     def fill(self, value):
         self[...] = value
 
+    def put(self, indices, values, mode="raise"):
+        values = Phase(values, copy=False, subok=True)
+        if values.imaginary != self.imaginary and np.any(values.view(np.ndarray) != np.zeros((), self._phase_dtype)):
+            raise ValueError("cannot mix real and imaginary phases in one array.")
+        self.view(np.ndarray).put(indices, values.view(np.ndarray), mode=mode)
+
     def __iter__(self):
         if self.isscalar:
             raise TypeError(
